@@ -26,3 +26,11 @@ package rest
 //@ func (ng *engine) buildChainWithNativeMiddlewares
 //@   property C04
 //@   call TimeoutHandler#0: assert arg_duration == ite(fr.timeout > 0, fr.timeout, time.Duration(ng.conf.Timeout) * time.Millisecond)
+
+// the connection deadlines are derived from the engine-wide maximum over all routes (ng.timeout): reads 0.8x, writes 1.1x -
+// so that no route's own timeout is cut short by the connection's write deadline
+//@ func (ng *engine) withTimeout closure 0
+//@   property C04
+//@   requires svr != nil
+//@   ensures implies(ng.timeout > 0, svr.WriteTimeout == 11 * ng.timeout / 10 && svr.ReadTimeout == 4 * ng.timeout / 5)
+//@   ensures implies(ng.timeout <= 0, svr.WriteTimeout == old(svr.WriteTimeout) && svr.ReadTimeout == old(svr.ReadTimeout))
